@@ -318,7 +318,7 @@ impl SpatialTrackBuilder {
 				attenuation_function: self.attenuation_function,
 				spatialization_strength: Parameter::new(self.spatialization_strength, 0.75),
 			}),
-			playback_state_manager: PlaybackStateManager::new(None),
+			playback_state_manager: PlaybackStateManager::new_for_track(),
 			temp_buffer: vec![Frame::ZERO; internal_buffer_size],
 			internal_buffer_size,
 		};
